@@ -68,6 +68,8 @@ def run(ctx):
     R.rule("C12-R1", "cursor advance only in a state where the stepped-over characters are known non-NUL", floor=18)
     R.rule("C12-R2", "functions returning std::string never return a null pointer constant", floor=20)
     R.rule("C12-R3", "escape(): emitting the escape character depends only on the current character", floor=2)
+    R.rule("C12-R5", "the scanner does not recurse on its input (literal scanner, tokenizer and lex helpers form no call cycle)", floor=30)
+    R.rule("C12-R6", "a line start recorded inside a scanning loop is computed from the pointer that loop advances", floor=8)
     R.rule("C12-R4", "escape/unescape delimiters agree between printers and tokenizer; operator consumed by match length", floor=6)
 
     methods = [f for f in prog.methods_of("occa::lang::tokenizer_t")]
@@ -338,6 +340,73 @@ def run(ctx):
         raise AnalysisBroken("only %d std::string-returning functions scanned" % n_str)
 
     escape_checks(prog, R, "C12-R3", "C12-R4")
+    scanner_shape(ctx, R)
+
+
+def scanner_shape(ctx, R):
+    """R5 / R6"""
+    prog = ctx.program(UNITS + ["src/types/primitive.cpp"], thorough_all=False)
+    # ---- R5: depth of the call stack must not depend on the length of the input -----------------------------------------------------
+    scan = [f for f in prog.funcs.values() if f.d.get("tmpl") != "inst" and (f.q.startswith(TK) or f.q.startswith("occa::lex::") or f.q.startswith("occa::primitive::load"))]
+    keys = {f.key: f for f in scan}
+    edges = {}
+    for f in scan:
+        outs = set()
+        for c in f.walk():
+            if is_call(c):
+                for g in prog.resolve_call(c, virtual=False) or ():
+                    if g.key in keys:
+                        outs.add(g.key)
+        edges[f.key] = outs
+    # Tarjan-free: a function is on a cycle iff it reaches itself
+    def reaches_self(k):
+        seen, work = set(), list(edges[k])
+        while work:
+            x = work.pop()
+            if x == k:
+                return True
+            if x in seen:
+                continue
+            seen.add(x)
+            work.extend(edges.get(x, ()))
+        return False
+    for f in sorted(scan, key=lambda x: x.q + x.d["sig"]):
+        rec = reaches_self(f.key)
+        direct = f.key in edges[f.key]
+        # overload forwarding (same name, other signature) is not recursion: keys are per definition
+        R.ob("C12-R5", not rec, f.q + " " + f.d["sig"][:40], "no call cycle through the scanner", "%s:%d" % (f.relfile, f.d["line"]),
+             "iterative" if not rec else
+             "%s: the nesting of the input drives the depth of the C++ stack (`1e1e1e...`, 76 KB, overflowed the stack in primitive::load)" % ("calls itself" if direct else "is on a call cycle"),
+             nontrivial=rec or f.q.startswith("occa::primitive::load"))
+    # ---- R6 ---------------------------------------------------------------------------------------------------------------------
+    n6 = 0
+    for f in prog.funcs.values():
+        if f.d.get("tmpl") == "inst" or not f.q.startswith(TK):
+            continue
+        for n in f.walk():
+            t = write_target(n)
+            if t is None or not noid(render(strip(t), False)).endswith("fp.lineStart") or n.get("op") != "=":
+                continue
+            loops = [a for a in f.ancestors(n) if a["k"] in ("WhileStmt", "ForStmt", "DoStmt") and not a.get("mac")]
+            if not loops:
+                continue
+            rhs = strip(kids(n)[1])
+            base = strip(kids(rhs)[0]) if rhs["k"] == "BinaryOperator" and rhs.get("op") in ("+", "-") else rhs
+            bt = noid(render(base, False))
+            advanced = False
+            for w in walk(loops[0]):
+                wt = write_target(w)
+                if wt is not None and w is not n and noid(render(strip(wt), False)) == bt:
+                    advanced = True
+                if is_call(w) and any(noid(render(strip(a_), False)) == bt for a_ in kids(w)[1:] if a_["k"] in ("DeclRefExpr", "MemberExpr")):
+                    advanced = True        # handed by reference to a helper that moves it
+            n6 += 1
+            R.ob("C12-R6", advanced, f.q, "lineStart <- %s" % noid(render(rhs, False)), f.site(n),
+                 "computed from the pointer the loop advances" if advanced else
+                 "the loop walks another pointer; `%s` does not move in it: after a token that contains a newline the line start is recorded past the token, the next token gets a negative column "
+                 "and the first diagnostic printed on it throws std::length_error (abort)" % bt)
+    if n6 < 6:
+        raise AnalysisBroken("tokenizer: only %d line-start updates inside loops found" % n6)
 
 
 def escape_checks(prog, R, r3, r4):
